@@ -164,26 +164,30 @@ theorem finishBytes_doneWith (s : Slots) (b : Bytes) :
     (finishBytes s b).doneWith s.resp.code s.resp.line := by
   unfold finishBytes; exact ⟨rfl, rfl⟩
 
-/-- an error object whose status has no custom handler ends the loop two iterations later with
-that status on the response object -/
-theorem runLoop_error (app : App) (fw : Bool) (n cnt : Nat) (s : Slots) (r : RState) (body : Out)
+/-- an error object with a text body whose status has no custom handler ends the loop two
+iterations later with that status on the response object (HTML page or JSON text alike) -/
+theorem runLoop_error (app : App) (fw : Bool) (n cnt : Nat) (s : Slots) (r : RState) (body : Str)
     (hcnt : cnt + 2 ≤ Gen.wsgiCastMaxLoops) (hno : errHandlerFor app r.code = none) :
-    (runLoop app fw (n + 2) (.run cnt s (.resp true r body))).doneWith r.code r.line := by
+    (runLoop app fw (n + 2) (.run cnt s (.resp true r (.text body)))).doneWith r.code r.line := by
   rw [runLoop_succ_run, step_run app fw cnt s _ (by omega)]
-  have h1 : castOut app fw (cnt + 1) s (.resp true r body) =
-      .run (cnt + 1) (withResp s (apply r s.resp)) (defaultPage (withResp s (apply r s.resp)) r body) := by
-    simp only [castOut, hno]
+  obtain ⟨s1, x, hd⟩ := defaultHandler_text (withResp s (apply r s.resp)) r body
+  have hs1 : s1.resp.code = r.code ∧ s1.resp.line = r.line := by
+    rcases defaultHandler_cases _ _ _ _ _ hd with ⟨rfl, _⟩ | ⟨j, rfl, _⟩ <;> exact ⟨rfl, rfl⟩
+  have h1 : castOut app fw (cnt + 1) s (.resp true r (.text body)) = .run (cnt + 1) s1 (.text x) := by
+    simp only [castOut, hno, hd]
   rw [h1, runLoop_succ_run, step_run app fw (cnt + 1) _ _ (by omega)]
-  unfold defaultPage castOut
+  unfold castOut
   simp only
   split
-  · have := finishEmpty_doneWith (withResp s (apply r s.resp))
-    generalize finishEmpty (withResp s (apply r s.resp)) = c at this ⊢
+  · have := finishEmpty_doneWith s1
+    rw [hs1.1, hs1.2] at this
+    generalize finishEmpty s1 = c at this ⊢
     cases c with
     | done s' res => rw [runLoop_done]; exact this
     | run _ _ _ => exact this.elim
-  · have := finishBytes_doneWith (withResp s (apply r s.resp)) (utf8 (renderPage r.line (urlOf (withResp s (apply r s.resp))) (fmtBody body)))
-    generalize finishBytes (withResp s (apply r s.resp)) _ = c at this ⊢
+  · have := finishBytes_doneWith s1 (utf8 x)
+    rw [hs1.1, hs1.2] at this
+    generalize finishBytes s1 (utf8 x) = c at this ⊢
     cases c with
     | done s' res => rw [runLoop_done]; exact this
     | run _ _ _ => exact this.elim
@@ -198,7 +202,7 @@ theorem cast_error500 (app : App) (fw : Bool) (s : Slots) (body : Str) (hdrs : H
   have hm := maxLoops_ge
   obtain ⟨k, hk⟩ : ∃ k, Gen.wsgiCastMaxLoops + 1 = k + 2 := ⟨Gen.wsgiCastMaxLoops - 1, by omega⟩
   have := runLoop_error app fw k 0 s { code := 500, line := lineOfCode 500, headers := hdrs, cookies := [] }
-    (.text body) (by omega) hno
+    body (by omega) hno
   unfold cast mkError
   rw [hk]
   generalize runLoop app fw (k + 2) _ = c at this ⊢
@@ -222,7 +226,7 @@ theorem cast_first_next_raises (app : App) (fw : Bool) (s : Slots) (id : Nat) (h
   have hm := maxLoops_ge
   obtain ⟨k, hk⟩ : ∃ k, Gen.wsgiCastMaxLoops + 1 = (k + 2) + 1 := ⟨Gen.wsgiCastMaxLoops - 2, by omega⟩
   have := runLoop_error app fw k 1 s { code := 500, line := lineOfCode 500, headers := [], cookies := [] }
-    (.text "Unhandled exception".toList) (by omega) hno
+    "Unhandled exception".toList (by omega) hno
   unfold cast
   rw [hk, runLoop_succ_run, step_run app fw 0 s _ (by omega)]
   have h1 : castOut app fw (0 + 1) s (.iter id hc items) =
